@@ -747,3 +747,40 @@ Section Roundtrip.
     destruct (G5 false) as [c [E1 E2]]. rewrite E1. exact E2.
   Qed.
 End Roundtrip.
+
+(** ** executable forms of the hypotheses (for examples and for the check) *)
+Definition name_ok_b (n : name) : bool :=
+  match n with
+  | [] => false
+  | b :: r => is_name_start b && forallb is_name_char r
+  end && negb (bytes_eqb n kw_true) && negb (bytes_eqb n kw_false) && negb (bytes_eqb n kw_null).
+
+Definition enums_ok_b (S : schema) : bool :=
+  forallb (fun t => match snd t with
+                    | NEnum vals _ _ => nodup_names (map fst vals) && forallb (fun p => name_ok_b (fst p)) vals
+                    | _ => true
+                    end) (types S).
+
+Lemma nodup_names_spec l : nodup_names l = true -> NoDup l.
+Proof.
+  induction l as [|x r IH]; simpl; [constructor|]. intro H. apply andb_true_iff in H as [H1 H2].
+  constructor; auto. intro Hin. apply mem_in in Hin. rewrite Hin in H1. discriminate.
+Qed.
+
+Lemma name_ok_b_spec n : name_ok_b n = true -> name_ok n.
+Proof.
+  unfold name_ok_b, name_ok. intro H. repeat (apply andb_true_iff in H as [H ?]).
+  assert (forall k, negb (bytes_eqb n k) = true -> n <> k).
+  { intros k Hk Heq. subst. rewrite bytes_eqb_refl in Hk. discriminate. }
+  repeat split; auto.
+  destruct n as [|b r]; [discriminate|]. apply andb_true_iff in H as [Hb Hr]. split; auto.
+  apply Forall_forall. rewrite forallb_forall in Hr. exact Hr.
+Qed.
+
+Lemma enums_ok_b_spec S : enums_ok_b S = true -> enums_ok S.
+Proof.
+  intros H n vals r d Hl. unfold enums_ok_b in H. rewrite forallb_forall in H.
+  specialize (H _ (lookup_in _ _ _ Hl)). simpl in H. apply andb_true_iff in H as [H1 H2].
+  split; [apply nodup_names_spec; exact H1|].
+  apply Forall_forall. intros p Hp. rewrite forallb_forall in H2. apply name_ok_b_spec. auto.
+Qed.
